@@ -102,15 +102,19 @@ void AsyncSink::onLogBackEnd(const LogContent &content)
     }
 
     //! 打印等级、时间戳、线程号、模块名
-    len = snprintf(buff, sizeof(buff), "%c %s.%06u %ld %s ",
+    //! 注意：snprintf() 返回的是"本应写入"的长度。模块名、函数名、文件名的长度不受限，
+    //! 不能经 buff 中转，否则超长时 append(buff, len) 会越界读取 buff 之后的栈内存
+    len = snprintf(buff, sizeof(buff), "%c %s.%06u %ld ",
             LOG_LEVEL_LEVEL_CODE[content.level],
             timestamp_str_, content.timestamp.usec,
-            content.thread_id, content.module_id);
+            content.thread_id);
     append(buff, len);
+    append(content.module_id, ::strlen(content.module_id));
+    append(' ');
 
     if (content.func_name != nullptr) {
-        len = snprintf(buff, sizeof(buff), "%s() ", content.func_name);
-        append(buff, len);
+        append(content.func_name, ::strlen(content.func_name));
+        append("() ", 3);
     }
 
     if (content.text_len > 0) {
@@ -124,7 +128,9 @@ void AsyncSink::onLogBackEnd(const LogContent &content)
     }
 
     if (content.file_name != nullptr) {
-        len = snprintf(buff, sizeof(buff), "-- %s:%d",  content.file_name, content.line);
+        append("-- ", 3);
+        append(content.file_name, ::strlen(content.file_name));
+        len = snprintf(buff, sizeof(buff), ":%d", content.line);
         append(buff, len);
     }
 
